@@ -10,7 +10,8 @@ pub(crate) struct Client {
 }
 
 impl Client {
-  const RX_BUF_LEN: usize = 8192;
+  // No UDP datagram is longer than 65535 bytes, so a reply is never truncated.
+  const RX_BUF_LEN: usize = 65536;
   const UDP_SOCKET_READ_TIMEOUT_S: u64 = 3;
   const UDP_SOCKET_READ_TIMEOUT_NS: u32 = 0;
 
